@@ -37,6 +37,12 @@ type Prop struct {
 	// that return): the process exits with status 3 and the check attributes the operation that has
 	// no result line.
 	OpTimeout time.Duration
+	// Stateless: every operation's result is a function of the operation alone (no clock, no randomness
+	// drawn by the code, no state the property lets one call leave for the next). The run then repeats
+	// randomly chosen earlier operations later on and reports a result that changed: state carried from
+	// one call to another (a reused buffer, a cache, a leftover file) is a violation of "for every input"
+	// that single calls cannot show.
+	Stateless bool
 }
 
 var props = map[string]*Prop{}
@@ -75,6 +81,9 @@ type judged struct {
 	Op  string `json:"op"`
 	Out string `json:"out"`
 	Why string `json:"why"`
+	// Ops, when set, is the operation sequence a replay needs (history dependence: first run, the
+	// operation in between, the repetition)
+	Ops []string `json:"ops,omitempty"`
 }
 
 type meta struct {
@@ -219,6 +228,10 @@ func main() {
 
 	m := meta{Property: name, Seed: *seed, Tier: *tier, Tags: g.tags, OutClasses: map[string]int{}, Extra: g.Extra}
 	seen := map[string]bool{}
+	hr := NewRand(*seed ^ 0x5eed)
+	firstOut := map[string]string{}
+	var firsts []string
+	repeats := 0
 	for i, op := range g.ops {
 		toks := strings.Fields(op)
 		// the operation is on disk before it runs: if it kills the process (fatal error, out of
@@ -243,6 +256,28 @@ func main() {
 				m.Judged = append(m.Judged, judged{Op: op, Out: clip(out), Why: why})
 			}
 		}
+		if p.Stateless {
+			// the same operation line seen before (a replay file repeats it on purpose) must give the same result
+			if prev, ok := firstOut[op]; ok && prev != out {
+				m.Judged = append(m.Judged, judged{Op: op, Out: clip(out),
+					Why: "history dependence: this operation gave " + clip(prev) + " when it first ran and a different result when repeated after other operations"})
+			} else if !ok && len(firstOut) < 4000 && len(op) < 1<<16 {
+				firstOut[op] = out
+				firsts = append(firsts, op)
+			}
+			if *opsFile == "" && len(firsts) > 1 && hr.Intn(25) == 0 {
+				f := firsts[hr.Intn(len(firsts))]
+				again := strings.ReplaceAll(safeExec(p, strings.Fields(f)), "\n", " ")
+				repeats++
+				if again != firstOut[f] {
+					m.Judged = append(m.Judged, judged{Op: f, Out: clip(again), Ops: []string{f, op, f},
+						Why: "history dependence: this operation gave " + clip(firstOut[f]) + " when it first ran and a different result when repeated after other operations (the last one: " + clip(op) + ")"})
+				}
+			}
+		}
+	}
+	if p.Stateless {
+		g.Extra["repeated_operations_for_history_dependence"] = repeats
 	}
 	wo.Flush()
 	wg.Flush()
